@@ -873,6 +873,12 @@ pub trait RadixSortable: Clone + Copy + Send + Sync + Ord {
     fn supports_parallel() -> bool {
         true
     }
+
+    /// Whether `extract_key` determines the order completely (false for variable-length data,
+    /// where it only covers a prefix and key-based LSD passes cannot produce the final order)
+    fn key_is_exact() -> bool {
+        true
+    }
 }
 
 impl RadixSortable for u32 {
@@ -950,6 +956,10 @@ impl<'a> RadixSortable for RadixString<'a> {
     
     fn supports_parallel() -> bool {
         true // String sorting can be parallelized with careful design
+    }
+
+    fn key_is_exact() -> bool {
+        false // only the first 8 bytes take part in the key
     }
 }
 
@@ -1062,6 +1072,12 @@ impl<T: RadixSortable> AdvancedRadixSort<T> {
         // Phase 1: Data analysis for adaptive strategy selection
         let analysis_start = Instant::now();
         let strategy = self.select_strategy(data)?;
+        // LSD passes sort by `extract_key` only; use the byte-wise MSD variant when the key is a prefix
+        let strategy = if strategy == SortingStrategy::LsdRadix && !T::key_is_exact() {
+            SortingStrategy::MsdRadix
+        } else {
+            strategy
+        };
         self.stats.phase_times.analysis_time_us = analysis_start.elapsed().as_micros() as u64;
 
         // Phase 2: Execute the selected strategy
@@ -1166,10 +1182,9 @@ impl<T: RadixSortable> AdvancedRadixSort<T> {
     fn insertion_sort(&mut self, data: &mut [T]) -> Result<()> {
         for i in 1..data.len() {
             let key = data[i].clone();
-            let key_value = key.extract_key();
             let mut j = i;
             
-            while j > 0 && data[j - 1].extract_key() > key_value {
+            while j > 0 && data[j - 1] > key {
                 data[j] = data[j - 1].clone();
                 j -= 1;
             }
@@ -1185,7 +1200,7 @@ impl<T: RadixSortable> AdvancedRadixSort<T> {
     fn tim_sort(&mut self, data: &mut [T]) -> Result<()> {
         // This is a simplified version - a full Tim sort implementation would be much more complex
         // For now, we use the standard library's unstable_sort which is based on pattern-defeating quicksort
-        data.sort_unstable_by_key(|item| item.extract_key());
+        data.sort_unstable();
         
         self.stats.basic_stats.used_parallel = false;
         self.stats.basic_stats.used_simd = false;
